@@ -52,6 +52,17 @@ def _state(case):
     return _STATE[k]
 
 
+def _genby2(case):
+    return case['genby'] + ' / second write'
+
+
+def _undate(case, snap):
+    """a file stamped by the writer itself carries the current time: compared as <now>"""
+    if isinstance(snap, dict) and not U.dated(case):
+        snap = dict(snap, date=U.now_or(snap.get('date')) if snap.get('date', [None])[0] == 'datetime' else snap.get('date'))
+    return snap
+
+
 def _load(fn):
     try:
         return U.loaded_snapshot(fn())
@@ -71,11 +82,11 @@ def _second_generation(case, path):
     path2 = U.tmpfile()
     try:
         try:
-            U.write_table(t1, case, path2)
+            U.write_table(t1, case, path2, genby=_genby2(case))       # asked to record ANOTHER generated-by
         except Exception as e:
             return {'write': ['err', tables.err_code(e)]}
-        tree, comp = U.raw_tree(path2)
-        return {'write': 'ok', 'file': tree, 'loaded': _norm_err(_load(lambda: biom.load_table(path2)))}
+        tree, comp = U.raw_tree(path2, mask_date=not U.dated(case))
+        return {'write': 'ok', 'file': tree, 'loaded': _norm_err(_undate(case, _load(lambda: biom.load_table(path2))))}
     finally:
         if os.path.exists(path2):
             os.remove(path2)
@@ -104,21 +115,21 @@ def run_impl(case):
             U.write_table(t, case, path)
         except Exception as e:
             return {'write': ['err', tables.err_code(e)]}
-        tree, comp = U.raw_tree(path)
+        tree, comp = U.raw_tree(path, mask_date=not U.dated(case))
         out = {'write': 'ok', 'file': tree, 'compression': comp, 'in_domain': U.in_domain(case)}
-        out['load_table'] = _load(lambda: biom.load_table(path))
+        out['load_table'] = _undate(case, _load(lambda: biom.load_table(path)))
         if case.get('gen2'):
             out['gen2'] = _second_generation(case, path)
 
         def via_handle():
             with biom_open(path) as fp:
                 return biom.parse_table(fp)
-        out['parse_table'] = _load(via_handle)
+        out['parse_table'] = _undate(case, _load(via_handle))
 
         def via_h5():
             with h5py.File(path, 'r') as f:
                 return Table.from_hdf5(f, axis=case.get('h5_axis', 'sample'))
-        out['from_hdf5'] = _load(via_h5)
+        out['from_hdf5'] = _undate(case, _load(via_h5))
         return out
     finally:
         if os.path.exists(path):
@@ -131,12 +142,13 @@ def encode(case):
         return [1, case['bytes']]
     if kind == 'escape':
         return [2, U.cps(case['name'])]
-    tree = [0, U.enc_state(case, _state(case)), U.cps(case['genby']), U.cps(case['date'])]
+    date = case['date'] if U.dated(case) else U.NOW
+    tree = [0, U.enc_state(case, _state(case)), U.cps(case['genby']), U.cps(date)]
     if case.get('gen2'):
         if jhash(case) not in _GEN2:
             run_impl(case)
         if _GEN2.get(jhash(case)) is not None:
-            tree.append([_GEN2[jhash(case)]])
+            tree.append([[_GEN2[jhash(case)], U.cps(_genby2(case)), U.cps(date)]])
     return tree
 
 
@@ -149,7 +161,13 @@ def decode(tree, case):
     w = tree[0]
     if w[0] == -1:
         return {'write': ['err', w[1]]}
-    ld = lambda t: ['err', t[1], None] if t[0] == -1 else U.dec_loaded(t[1])
+    def ld(t):
+        if t[0] == -1:
+            return ['err', t[1], None]
+        d = U.dec_loaded(t[1])
+        if not U.dated(case):
+            d['date'] = ['datetime', U.NOW]      # the model carries the text <now>; the reader makes a datetime of a real stamp
+        return d
     samp, obs = ld(tree[1]), ld(tree[2])
     extra = {}
     if case.get('gen2') and len(tree) > 4 and tree[4]:
@@ -221,11 +239,12 @@ def oracle(case, obs, want=None):
         elif not isinstance(g2.get('loaded'), dict):
             fails.append('second generation: the re-written file could not be loaded: %s' % (g2.get('loaded'),))
         else:
+            want2 = dict(want, genby=_genby2(case))        # the second write was asked to record another generated-by
             for f, label in FIELDS:
-                if g2['loaded'].get(f) != want.get(f):
-                    fails.append('second generation (write, load, write, load): %s differ from the original: wrote %s, loaded %s'
-                                 % (label, str(want.get(f))[:160], str(g2['loaded'].get(f))[:160]))
-                elif isinstance(obs.get('load_table'), dict) and g2['loaded'].get(f) != obs['load_table'].get(f):
+                if g2['loaded'].get(f) != want2.get(f):
+                    fails.append('second generation (write, load, write, load): %s differ from what was to be written: wrote %s, loaded %s'
+                                 % (label, str(want2.get(f))[:160], str(g2['loaded'].get(f))[:160]))
+                elif f != 'genby' and isinstance(obs.get('load_table'), dict) and g2['loaded'].get(f) != obs['load_table'].get(f):
                     fails.append('second generation: %s differ from the first generation' % label)
     exp = ['gzip' if case['compress'] else 'none']
     if obs.get('compression') != exp:
@@ -276,6 +295,11 @@ def classify(case):
         tags.append('history:%s' % ('write-load-write-load' if case.get('gen2') else 'write-load'))
         tags.append('md-values:%s' % ('numpy scalars' if case.get('np_md') else 'python'))
         tags.append('ids-given-as:%s' % (case.get('ids_as') or 'list'))
+        tags.append('table-own-generated_by:%s' % ('set' if case.get('own_genby') else 'none'))
+        od = case.get('own_date')
+        tags.append('table-own-create_date:%s' % ('none' if not od else od[0] if od[0] == 'datetime' else 'ISO text' if U.model_date(od[1])[0] == 'datetime' else 'non-ISO text'))
+        tags.append('creation_date-argument:%s' % ('given' if U.dated(case) else 'absent (now)'))
+        tags.append('userblock:%s' % (case.get('userblock') or 0))
         tags.append('earlier-write-with-format_fs:%s' % bool(case.get('prelude')))
         tags.append('theorem-domain:%s' % ('inside' if U.in_domain(case) else 'outside'))
     return tags
@@ -321,7 +345,7 @@ def shrink(case):
         yield with_spec(layout=['dense'])
     if any(len(i) > 2 or ord(max(i)) > 127 for i in s['oids'] + s['sids'] if i):
         yield with_spec(oids=['o%d' % i for i in range(r)], sids=['s%d' % j for j in range(c)])
-    for flag in ('np_md', 'prelude', 'ids_as'):
+    for flag in ('np_md', 'prelude', 'ids_as', 'own_genby', 'own_date', 'userblock'):
         if case.get(flag):
             yield {k: v for k, v in case.items() if k != flag}
     if case.get('gen2'):
